@@ -1816,6 +1816,10 @@ class Surface(SplineGeometry):
             raise GeomdlException("Input geometry should be 2-dimensional")
         self._trims.append(trim)
 
+        # The existing tessellation does not take the new trim into account
+        if self._tsl_component is not None:
+            self._tsl_component.reset()
+
     def set_ctrlpts(self, ctrlpts, *args, **kwargs):
         """ Sets the control points and checks if the data is consistent.
 
